@@ -235,7 +235,7 @@ def _frames_build(rng, nr, st):
         if len(kids) == 1:
             mode = 'h'
         if mode == 'diag':                       # second sibling up-right of the first, (0,0) = touching at a corner
-            gx, gy = rng.choice([0, 0, 1]), rng.choice([0, 0, 1])
+            gx, gy = rng.choice([0, 1, 1]), rng.choice([0, 1, 1])
             (p1, w1, h1, d1), (p2, w2, h2, d2) = kids
             paths = p1 + _shift(p2, w1 + gx, h1 + gy)
             cw, ch = w1 + gx + w2, h1 + gy + h2
@@ -246,7 +246,7 @@ def _frames_build(rng, nr, st):
             cur = 0
             for i, (p, w, h, d) in enumerate(kids):
                 if i:
-                    g = rng.choice([1, 1, 1, 1, 2, 2, 0])
+                    g = rng.choice([1, 1, 1, 1, 1, 1, 2, 2, 2, 0])
                     if g == 0:
                         st['touch'] = True
                     cur += g
@@ -260,7 +260,7 @@ def _frames_build(rng, nr, st):
         cd = max(k[3] for k in kids)
 
     def pad():
-        if kids and rng.chance(1, 40):
+        if kids and rng.chance(1, 150):
             st['touch'] = True
             return 0
         return rng.choice([1, 1, 1, 2])
@@ -1010,10 +1010,10 @@ def _gp_crossing(rng, max_depth, box):
     return Sa, Sb, 'crossing', dict(sub='crossing', depth=None)
 
 
-def _gp_issue(rng, box):
+def _gp_issue(rng, box, u=None):
     """upstream issue inputs scaled, rotated by a random angle and jittered vertex occurrence by vertex occurrence:
     coincident / retraced edges become slivers and small crossings in general position"""
-    u = rng.choice(UPSTREAM)
+    u = u or rng.choice(UPSTREAM)
     allp = u['S'] + u['C']
     g = 0
     for p in allp:
@@ -1021,15 +1021,19 @@ def _gp_issue(rng, box):
             g = math.gcd(g, math.gcd(abs(v[0]), abs(v[1])))
     g = max(g, 1)
     x0, y0, x1, y1 = _bbox(allp)
-    # smallest non-zero feature (edge length) after division by g decides the scale
+    # the smallest gap between distinct x (or y) values, after division by g, decides the scale: it becomes ~4 jitter
+    # amplitudes (capped so that coordinates stay below ~2e7)
     m = None
-    for p in allp:
-        for a, b in _edges(p):
-            L = max(abs(a[0] - b[0]), abs(a[1] - b[1])) // g
-            if L > 0:
-                m = L if m is None else min(m, L)
-    amp = rng.range(6, 14)
-    sc = max(1, (6 * amp + m - 1) // m)
+    for ax in (0, 1):
+        vs = sorted(set(v[ax] // g for p in allp for v in p))
+        for a, b in zip(vs, vs[1:]):
+            m = b - a if m is None else min(m, b - a)
+    amp = rng.range(20, 80)
+    big = max(abs(x0), abs(y0), abs(x1), abs(y1)) // g + 1
+    want = (4 * amp + m - 1) // m
+    sc = max(1, min(want, 20000000 // big))
+    if sc < want:                                # capped (#942): larger jitter instead, its features are wide
+        amp *= rng.range(2, 6)
     th = rng.below(3600) * math.pi / 1800 if rng.chance(3, 4) else 0.0
     c, s = math.cos(th), math.sin(th)
     mx, my = (x0 + x1) // 2, (y0 + y1) // 2
@@ -1056,6 +1060,7 @@ FALLBACK_GENPOS = ([R(-120, -110, 130, 125), [(-60, -50), (5, 66), (70, -42)]], 
 
 def gen_nested_genpos_case_info(rng, max_depth=8, box=400):
     fam = rng.choice(['nested', 'nested', 'nested', 'nested', 'siblings', 'siblings', 'siblings', 'crossing', 'crossing', 'issue'])
+    u = rng.choice(UPSTREAM) if fam == 'issue' else None
     for t in range(100):
         if fam == 'nested':
             S, C, kind, info = _gp_nested(rng, max_depth, box, 0)
@@ -1064,7 +1069,7 @@ def gen_nested_genpos_case_info(rng, max_depth=8, box=400):
         elif fam == 'crossing':
             S, C, kind, info = _gp_crossing(rng, max_depth, box)
         else:
-            S, C, kind, info = _gp_issue(rng, box)
+            S, C, kind, info = _gp_issue(rng, box, u)
             if t >= 40:
                 fam = 'nested'
         if S and polys.general_position(S + C):
@@ -1292,6 +1297,19 @@ def _bucket(n):
     return '>512'
 
 
+def _pip(pt, p):
+    """even-odd point in polygon (pt not on the boundary)"""
+    c = False
+    for a, b in _edges(p):
+        if (a[1] > pt[1]) != (b[1] > pt[1]):
+            # x coordinate of the edge at height pt[1], compared exactly
+            lhs = (pt[0] - a[0]) * (b[1] - a[1])
+            rhs = (b[0] - a[0]) * (pt[1] - a[1])
+            if (lhs < rhs) == (b[1] > a[1]):
+                c = not c
+    return c
+
+
 def _print_hist(title, h, key=None):
     print(title)
     for kk in sorted(h, key=key):
@@ -1359,6 +1377,12 @@ if __name__ == '__main__':
         assert no_consecutive_duplicates(S + C)
         assert polys.general_position(S + C), (kind, info)
         assert not is_rectilinear(S + C) or info['sub'] == 'fallback'
+        if kind.startswith('nested-d') or kind == 'siblings':
+            # the rings really are strictly nested / disjoint and the claimed depth is the real one
+            assert not polys.crossings(S + C), (kind, info)
+            rings = S + C
+            d = 1 + max(sum(1 for q in rings if q is not p and _pip(p[0], q)) for p in rings)
+            assert d == info['depth'], (kind, info, d)
         bump(kinds, kind)
         bump(subs, info['sub'])
         if info.get('depth') is not None:
